@@ -63,7 +63,7 @@ def mc_cfg(emit):
 SCALARS = [17, "text", None, 2.5, True, 0, "", -3]
 OK_KINDS = ["okf", "okc", "okn", "rebind"]
 RAISE_KINDS = ["raise", "cfgerr"]
-NOLOAD_KINDS = ["nomodule", "missing", "notcallable"]
+NOLOAD_KINDS = ["nomodule", "missing", "notcallable", "nulltype"]
 
 
 def path_key(path):
@@ -83,7 +83,11 @@ def render(tree, path, rnd, ids, scalars):
         ident = len(ids)
         kind = rnd.choice({"ok": OK_KINDS, "raises": RAISE_KINDS, "noload": NOLOAD_KINDS}[tree[1]])
         ids[path_key(path)] = (ident, kind)
-        if kind == "nomodule":
+        if kind == "nulltype":
+            # the key is there, but what it names is nothing: still a __type__ mapping, and an
+            # error at exactly this place
+            name = rnd.choice([None, "", 0, False, []])
+        elif kind == "nomodule":
             name = "vp_no_such_module_%d.thing" % ident
         elif kind == "okn":
             name = "vp.fx_translate.holder.inner.okn_%d" % ident
@@ -139,6 +143,7 @@ def tokenize_where(where):
 def execute(case):
     """case: {tree, seed}"""
     from cobald.daemon.config.mapping import Translator, ConfigurationError
+    from cobald.daemon.core.config import PipelineTranslator
     import vp.fx_translate as fx
 
     rnd = random.Random(case["seed"])
@@ -164,7 +169,9 @@ def execute(case):
         root_typed = case["tree"][0] == "T"
         extra = {"vp_marker": "mk"} if (root_typed and case["seed"] % 3 == 0) else {}
         try:
-            out = Translator().translate_hierarchy(concrete, **extra)
+            # (the pipeline-aware subclass treats everything that is no pipeline like its base)
+            translator = PipelineTranslator() if case["seed"] % 5 == 1 else Translator()
+            out = translator.translate_hierarchy(concrete, **extra)
         except ConfigurationError as e:
             end = {"e": "End", "state": "cfgerr", "where": tokenize_where(e.where)}
         except BaseException as e:  # noqa
